@@ -14,6 +14,10 @@
 (***************************************************************************)
 EXTENDS DataShard, Json, IOUtils, TLCExt, SequencesExt
 
+CONSTANT TableDamaged   \* TRUE: the scenario starts from a deliberately damaged table (a reachable file is
+                        \* missing or unparseable): the invariants that say "everything reachable exists" are
+                        \* not evaluated; what the collector does about it is.
+
 VARIABLES tid, l
 
 TraceData == JsonDeserialize(IOEnv.TRACE_FILE)
@@ -56,7 +60,10 @@ InitObs == Traces[tid].init
 
 \* files of the current snapshot of the initial table, its snapshot ids, its timestamps
 InitCurBody == ObsMetas(InitObs)[ObsHint(InitObs).name]
-InitFilesOf(lid) == UNION {{e.file : e \in ObsMans(InitObs)[ObsLists(InitObs)[lid][j]]} : j \in 1..Len(ObsLists(InitObs)[lid])}
+InitFilesOf(lid) ==
+  IF lid \notin DOMAIN ObsLists(InitObs) THEN {}
+  ELSE UNION {IF ObsLists(InitObs)[lid][j] \in DOMAIN ObsMans(InitObs)
+              THEN {e.file : e \in ObsMans(InitObs)[ObsLists(InitObs)[lid][j]]} ELSE {} : j \in 1..Len(ObsLists(InitObs)[lid])}
 
 TraceInit ==
   /\ tid \in 1..NT
@@ -67,7 +74,7 @@ TraceInit ==
   /\ lists = ObsLists(InitObs)
   /\ mans = ObsMans(InitObs)
   /\ present = ObsPresent(InitObs)
-  /\ ftime = [f \in ObsPresent(InitObs) |-> OldTime]
+  /\ ftime = [f \in ObsPresent(InitObs) |-> InitObs.ftime[CHOOSE i \in 1..Len(InitObs.ftime) : InitObs.ftime[i][1] = f][2]]
   /\ markers = {}
   /\ mtimeM = <<>>
   /\ clock = InitObs.clock
@@ -130,7 +137,17 @@ TrFinish == IsEv("Finish") /\ Finish(A)
 \* following events are checked against it).  Failures of best-effort steps are swallowed.
 TrFault ==
   /\ IsEv("Fault")
-  /\ IF pc[A] \in {"rollback", "c_cleanup"} /\ ev.when # "async"
+  /\ IF Role[A] = "collector"
+     THEN CASE ev.cls \in {"list", "man"} /\ ev.op = "exists" -> (GFaultReach(A) \/ Stutter)   \* the probe for a path's reading tolerates errors
+            [] ev.cls \in {"list", "man"} /\ ev.op \notin {"get_modified_time", "delete_file"} -> GFaultReach(A)
+            [] ev.cls \in {"hint", "meta"} -> GFaultEarly(A)
+            [] ev.op = "list_files" /\ ev.path = "metadata/inflight" -> GFaultMarkList(A)
+            [] ev.op = "list_files" -> GFaultList(A)
+            [] ev.cls = "marker" /\ ev.op = "read_file" -> GMarkUnreadable(A, ev.f)
+            [] ev.cls = "marker" /\ ev.op \in {"get_modified_time", "delete_file"} ->
+                  (IF ev.f \in loc[A].mseen THEN GMarkUndeletable(A, ev.f) ELSE Stutter)
+            [] OTHER -> GSkip(A, ev.f)
+     ELSE IF pc[A] \in {"rollback", "c_cleanup"} /\ ev.when # "async"
      THEN IF ev.cls = "marker" THEN SkipMarker(A, ev.f) ELSE SkipRollbackData(A, ev.f)
      ELSE Fault(A, ev.when)
 
@@ -148,6 +165,9 @@ TrExists ==
             [] pc[A] = "r_list"     -> RReadList(A)
             [] pc[A] = "r_man"      -> RReadManifest(A)
             [] OTHER                -> Stutter
+
+\* a reachable list / manifest exists but cannot be read (unparseable, transient): the collector aborts
+TrReadFailed == IsEv("Read") /\ ~ev.ok /\ Role[A] = "collector" /\ GFaultReach(A)
 
 TrRead ==
   /\ IsEv("Read")
@@ -207,7 +227,9 @@ TrList ==
   /\ IsEv("List")
   /\ ev.ok
   /\ IF ev.dir = "metadata/inflight" THEN GLoadMarkers(A) /\ ToSet(ev.res) = markers
-     ELSE GList(A) /\ ToSet(ev.res) = loc'[A].cand
+     ELSE IF ev.esc THEN GListEscaping(A)
+     ELSE GList(A) /\ ToSet(ev.res) \subseteq loc'[A].cand /\ (loc'[A].cand \ ToSet(ev.res)) \subseteq loc[A].cand
+                   /\ \A f \in ToSet(ev.res) : IsDataFile(f) <=> ev.dir = "data"
 TrStat == (IsEv("Stat") \/ IsEv("StatMarker") \/ IsEv("ReadMarker")) /\ Stutter
 
 TrDeleteMarker ==
@@ -220,7 +242,7 @@ TrDeleteFile == IsEv("DeleteFile") /\ ev.ok /\ IF Role[A] = "collector" THEN GDe
 
 TrRet ==
   /\ IsEv("Ret")
-  /\ IF Role[A] = "collector" THEN GReturn(A) /\ (ev.res = "aborted" <=> pc[A] = "g_abort")
+  /\ IF Role[A] = "collector" THEN GReturn(A) /\ (ev.res \in {"aborted", "error"} <=> (pc[A] = "g_abort" \/ loc[A].esc))
      ELSE IF Role[A] = "reader"
      THEN /\ RReturn(A)
           /\ ev.res = "ok" <=> loc[A].err = "none"
@@ -248,7 +270,7 @@ TraceNext ==
   \/ TrCommitStart \/ TrFinish \/ TrFault
   \/ TrBegin \/ TrResolve \/ TrWriteMarker \/ TrWriteData \/ TrExists \/ TrRead \/ TrWriteMan \/ TrWriteList
   \/ TrNow \/ TrTLock \/ TrTUnlock \/ TrLockTry \/ TrDUnlock \/ TrWriteMeta \/ TrFence \/ TrFlipHint
-  \/ TrBackoff \/ TrList \/ TrStat \/ TrDeleteMarker \/ TrDeleteFile \/ TrRet \/ TrTick \/ TrObserve
+  \/ TrReadFailed \/ TrBackoff \/ TrList \/ TrStat \/ TrDeleteMarker \/ TrDeleteFile \/ TrRet \/ TrTick \/ TrObserve
 
 TraceSpec == TraceInit /\ [][TraceNext]_tvars
 
@@ -260,11 +282,11 @@ TraceSpec == TraceInit /\ [][TraceNext]_tvars
 (* not hide the verdicts of the others; a trace is not explored past a      *)
 (* violating state.                                                         *)
 (***************************************************************************)
-InvTable == << <<"TypeOK", TypeOK>>, <<"Serializable", Serializable>>, <<"LinearChain", LinearChain>>,
+InvTable == << <<"TypeOK", TypeOK>>, <<"Serializable", TableDamaged \/ Serializable>>, <<"LinearChain", LinearChain>>,
                <<"AckedOnce", AckedOnce>>, <<"NoDoubleCommit", NoDoubleCommit>>,
-               <<"ReachablePresent", ReachablePresent>>, <<"FlipReplacesValidated", FlipReplacesValidated>>,
+               <<"ReachablePresent", TableDamaged \/ ReachablePresent>>, <<"FlipReplacesValidated", FlipReplacesValidated>>,
                <<"NoLiveDelete", NoLiveDelete>>, <<"NoDeleteOnAmbiguous", NoDeleteOnAmbiguous>>,
-               <<"OnlyOrphansDeleted", OnlyOrphansDeleted>>, <<"InflightPresent", InflightPresent>>, <<"ReadIsSnapshot", ReadIsSnapshot>>, <<"ReadsMonotone", ReadsMonotone>> >>
+               <<"OnlyOrphansDeleted", OnlyOrphansDeleted>>, <<"AbortDeletesNothing", AbortDeletesNothing>>, <<"InflightPresent", InflightPresent>>, <<"ReadIsSnapshot", TableDamaged \/ ReadIsSnapshot>>, <<"ReadsMonotone", TableDamaged \/ ReadsMonotone>> >>
 ViolatedNow == {i \in 1..Len(InvTable) : ~InvTable[i][2]}
 
 ASSUME TLCSet(2, [t \in 1..NT |-> 0]) /\ TLCSet(3, [t \in 1..NT |-> <<0, "">>])
